@@ -25,6 +25,7 @@ func (r Result) String() string { return [...]string{"unsat", "sat", "unknown"}[
 type Solver struct {
 	cmd       *exec.Cmd
 	in        io.WriteCloser
+	bw        *bufio.Writer
 	out       *bufio.Reader
 	Bin       string
 	Args      []string
@@ -71,6 +72,7 @@ func (s *Solver) start() error {
 		return err
 	}
 	s.in = in
+	s.bw = bufio.NewWriterSize(in, 1<<16)
 	s.out = bufio.NewReaderSize(out, 1<<16)
 	s.dead = false
 	if !strings.Contains(s.Bin, "cvc5") {
@@ -97,12 +99,18 @@ func (s *Solver) send(line string) {
 	if s.Log != nil {
 		fmt.Fprintln(s.Log, line)
 	}
-	if _, err := io.WriteString(s.in, line+"\n"); err != nil {
+	if _, err := s.bw.WriteString(line + "\n"); err != nil {
 		s.dead = true
 	}
 }
 
 func (s *Solver) readLine() string {
+	if s.bw.Buffered() > 0 {
+		if err := s.bw.Flush(); err != nil {
+			s.dead = true
+			return "(error \"solver died\")"
+		}
+	}
 	line, err := s.out.ReadString('\n')
 	if err != nil {
 		s.dead = true
